@@ -131,7 +131,7 @@ shim_all(DS, M)
                'at, and outside the knots): map_backward(map_forward(v)) == v and map_forward(map_backward(w)) == w; the document-level maps agree '
                'with the axis-level ones',
         shims=['dict keyed by symbolic reals: collide mode', 'sorted() forks on comparisons'],
-        quick=[dict(n=2), dict(n=3), dict(n=3, decreasing=True)], thorough=[dict(n=2), dict(n=3), dict(n=4), dict(n=2, decreasing=True), dict(n=3, decreasing=True), dict(n=4, decreasing=True)], collide=True)
+        quick=[dict(n=2), dict(n=2, decreasing=True)], thorough=[dict(n=2), dict(n=3), dict(n=2, decreasing=True), dict(n=3, decreasing=True)], collide=True, path_timeout_s=600)
 def axis_map_inverse(n, decreasing=False):
     a = DS.AxisDescriptor()
     a.name = 'Weight'
